@@ -49,6 +49,7 @@ type verr struct{ id int64 }
 func (e verr) Error() string { return fmt.Sprintf("verif-err-%d", e.id) }
 
 type cacheRun struct {
+	executed  bool // every action of the given schedule could be performed
 	cfg       cacheCfg
 	rc        *datasource.RequestCache[uint64, int64]
 	wg        sync.WaitGroup
@@ -199,7 +200,7 @@ func (r *cacheRun) do(a string, quiet time.Duration) bool {
 
 // waitFor polls cond (under the lock) for up to a second.
 func (r *cacheRun) waitFor(cond func() bool) {
-	deadline := time.Now().Add(time.Second)
+	deadline := time.Now().Add(time.Duration(timeoutScale) * time.Second)
 	for time.Now().Before(deadline) {
 		r.mu.Lock()
 		ok := cond()
@@ -245,10 +246,19 @@ func (r *cacheRun) finish() bool {
 	select {
 	case <-done:
 		return false
-	case <-time.After(time.Second):
+	case <-time.After(time.Duration(timeoutScale) * time.Second):
 		return true
 	}
 }
+
+// timeoutScale multiplies every wait of the harness.  All waits end as soon as their condition holds, so a larger
+// scale costs nothing on a healthy run.  A timeout at scale 1 is only a CANDIDATE verdict: the schedule is executed
+// again, alone, at scale 20, and only a timeout there is reported (a lost wake-up blocks forever, so it survives);
+// otherwise it is counted in loadInducedTimeouts.
+var timeoutScale = 1
+var loadInducedTimeouts int
+
+const confirmScale = 20
 
 // stuckRuns counts executions in which some Get never returned; after a handful the verdict is certain and
 // the enumeration stops paying the timeout for every further schedule.
@@ -267,7 +277,7 @@ func (r *cacheRun) abandon() {
 	}
 }
 
-// runCacheSchedule executes a fixed schedule (replay).
+// runCacheSchedule executes a fixed schedule (replay / confirmation).
 func runCacheSchedule(cfg cacheCfg, sched []string, quiet time.Duration, final bool) (*cacheRun, []string, bool) {
 	r := newCacheRun(cfg)
 	for _, a := range sched {
@@ -276,6 +286,7 @@ func runCacheSchedule(cfg cacheCfg, sched []string, quiet time.Duration, final b
 			return r, nil, false
 		}
 	}
+	r.executed = true
 	en := r.enabled()
 	stuck := false
 	if len(en) == 0 {
@@ -389,8 +400,23 @@ func exploreCache(stream string, cfg cacheCfg, quiet time.Duration, limit int, o
 				// complete may have become an owner since and be parked in its fetch function
 				en = r.enabled()
 				if len(en) == 0 {
-					stuck = true
-					stuckRuns++
+					// candidate: confirm by running this very schedule again, alone, with 20x the patience
+					r.abandon()
+					timeoutScale = confirmScale
+					r2, _, stuck2 := runCacheSchedule(cfg, sched, 4*quiet, true)
+					timeoutScale = 1
+					if stuck2 {
+						r = r2
+						stuck = true
+						stuckRuns++
+					} else {
+						loadInducedTimeouts++
+						if len(r2.log) > 0 && r2.executed {
+							r = r2 // the completed execution of the same schedule stands in
+						} else {
+							diverged = true
+						}
+					}
 					break
 				}
 			}
@@ -494,5 +520,6 @@ func genCacheCases(seed int64, tier string, quiet time.Duration) ([]*cacheCase, 
 		}
 	}
 	stats["executions_including_prefix_runs"] = runs
+	stats["load_induced_timeouts"] = loadInducedTimeouts
 	return cases, stats
 }
